@@ -474,8 +474,11 @@ impl Property for C06 {
                     }
                 }
                 Some((i, certain)) => {
-                    let prefix_ok = spawn_lens.len() >= i && spawn_lens[..i] == expect[..];
-                    let reported = obs.status == RunStatus::Exit(1) && !obs.stderr.is_empty() && spawn_lens.len() == i;
+                    // the line before the one that cannot be passed may or may not have been run
+                    let common = spawn_lens.len().min(expect.len());
+                    let prefix_ok = spawn_lens[..common] == expect[..common]
+                        && (spawn_lens.len() >= i || (spawn_lens.len() + 1 == i && obs.status == RunStatus::Exit(1)));
+                    let reported = obs.status == RunStatus::Exit(1) && !obs.stderr.is_empty() && (spawn_lens.len() == i || spawn_lens.len() + 1 == i);
                     if !prefix_ok {
                         rep.fail("C06.replace-invocations", format!("{}: the {} lines before it were not all run as expected ({} invocations)", describe(i), i, spawn_lens.len()));
                     } else if certain && !reported && {
@@ -550,8 +553,10 @@ impl Property for C06 {
             }
             Some((i, certain)) => {
                 rep.probe(if certain { "argument_too_large_to_pass" } else { "argument_in_headroom_gray_zone" });
-                let prefix_ok = delivered.len() >= i && delivered[..i] == lens[..i];
-                let reported = obs.status == RunStatus::Exit(1) && !obs.stderr.is_empty() && delivered.len() == i;
+                // everything delivered comes from before the argument, in order; the invocation
+                // being filled when it arrived may or may not have been run first
+                let prefix_ok = delivered.len() <= lens.len() && delivered[..] == lens[..delivered.len()] && (delivered.len() >= i || obs.status == RunStatus::Exit(1));
+                let reported = obs.status == RunStatus::Exit(1) && !obs.stderr.is_empty() && delivered.len() <= i;
                 let passed_all = delivered == lens && obs.status == RunStatus::Exit(0);
                 if !prefix_ok {
                     rep.fail(
@@ -598,6 +603,9 @@ impl Property for C06 {
     fn shrink(sc: &Sc) -> Vec<Sc> {
         let mut out = vec![];
         for i in 0..sc.opts.len() {
+            if sc.replace {
+                break; // the replace option is what makes the scenario a replace-mode one
+            }
             let mut s = sc.clone();
             s.opts.remove(i);
             out.push(s);
